@@ -1,3 +1,4 @@
+import OpacusLean.Generated.AcctStep
 import OpacusLean.Lemmas.EngineEffect
 import Mathlib.Algebra.BigOperators.Group.List.Basic
 /-! # C05 — every noised step is accounted exactly once, with the parameters in force
@@ -246,5 +247,56 @@ theorem cost_perm_invariant {α M} [AddCommMonoid M] (f : α → M) (h₁ h₂ :
     ((rleExpand h₁).map f).sum = ((rleExpand h₂).map f).sum := (hp.map f).sum_eq
 
 example : rleExpand (rleStep (rleStep (rleStep ([] : List (Nat × Nat)) 7) 7) 9) = [7, 7, 9] := by decide
+
+/-! ### The tie to the source: the three `step` methods re-translated on every run (`Generated/AcctStep.lean`) -/
+section generated
+open Opacus.Generated.Acct
+
+/-- the engine model keys a run by the pair `(σ, q)`; the code stores the triple `(σ, q, n)` -/
+def assoc {A : Type} (e : A × A × Nat) : (A × A) × Nat := ((e.1, e.2.1), e.2.2)
+
+theorem hist_cases {A : Type} (h : List A) : h = [] ∨ ∃ l a, h = l ++ [a] := by
+  rcases List.eq_nil_or_concat h with h | ⟨l, a, h⟩
+  · exact Or.inl h
+  · exact Or.inr ⟨l, a, by simpa using h⟩
+
+/-- **`RDPAccountant.step`, `PRVAccountant.step` and `GaussianAccountant.step` as written in the source are the
+model's `rleStep` / `gdpStep`** (for every history, every parameter type with decidable equality) -/
+theorem generated_step_eq_model {A : Type} [DecidableEq A] (h : List (A × A × Nat)) (s q : A) :
+    (rdpStep h s q).map (List.map assoc) = some (rleStep (h.map assoc) (s, q)) ∧
+    (prvStep h s q).map (List.map assoc) = some (rleStep (h.map assoc) (s, q)) ∧
+    (Opacus.Generated.Acct.gdpStep h s q).map (List.map assoc) = Opacus.Engine.gdpStep (h.map assoc) (s, q) := by
+  rcases hist_cases h with rfl | ⟨l, ⟨a, b, n⟩, rfl⟩
+  · simp [rdpStep, prvStep, Opacus.Generated.Acct.gdpStep, rleStep, Opacus.Engine.gdpStep, assoc]
+  · by_cases h1 : a = s <;> by_cases h2 : b = q <;>
+      simp [rdpStep, prvStep, Opacus.Generated.Acct.gdpStep, rleStep, Opacus.Engine.gdpStep, assoc, h1, h2]
+
+/-- the source's `step` never raises for the RDP / PRV accountants and appends exactly the step it is given to the
+expanded ledger; the GDP one either raises or does the same -/
+theorem generated_step_accounts_once {A : Type} [DecidableEq A] (h : List (A × A × Nat)) (s q : A) :
+    (∃ h', rdpStep h s q = some h' ∧ rleExpand (h'.map assoc) = rleExpand (h.map assoc) ++ [(s, q)]) ∧
+    (∃ h', prvStep h s q = some h' ∧ rleExpand (h'.map assoc) = rleExpand (h.map assoc) ++ [(s, q)]) ∧
+    (∀ h', h.length ≤ 1 → Opacus.Generated.Acct.gdpStep h s q = some h' →
+        rleExpand (h'.map assoc) = rleExpand (h.map assoc) ++ [(s, q)] ∧ h'.length ≤ 1) := by
+  obtain ⟨e1, e2, e3⟩ := generated_step_eq_model h s q
+  refine ⟨?_, ?_, ?_⟩
+  · cases hr : rdpStep h s q with
+    | none => simp [hr] at e1
+    | some h' =>
+      refine ⟨h', rfl, ?_⟩
+      rw [hr] at e1; simp only [Option.map_some, Option.some.injEq] at e1
+      rw [e1, rle_expand]
+  · cases hr : prvStep h s q with
+    | none => simp [hr] at e2
+    | some h' =>
+      refine ⟨h', rfl, ?_⟩
+      rw [hr] at e2; simp only [Option.map_some, Option.some.injEq] at e2
+      rw [e2, rle_expand]
+  · intro h' hl hg
+    rw [hg] at e3; simp only [Option.map_some] at e3
+    have := gdp_expand (h.map assoc) (h'.map assoc) (s, q) (by simpa using hl) e3.symm
+    simpa using this
+
+end generated
 
 end Opacus.C05
